@@ -270,6 +270,10 @@ impl<T: HashAlgorithm> Nomt<T> {
     /// This is used for testing for now.
     #[doc(hidden)]
     pub fn read(&self, path: KeyPath) -> anyhow::Result<Option<Value>> {
+        #[cfg(feature = "verif")]
+        crate::verif::sched::point_lock("access.read(read)", 1, false, &|| {
+            !self.access_lock.is_locked_exclusive()
+        });
         let _guard = self.access_lock.read();
         self.store.load_value(path)
     }
@@ -312,6 +316,12 @@ impl<T: HashAlgorithm> Nomt<T> {
         // We must take the access guard before instantiating the rollback delta,
         // because it creates a read transaction and any commits or rollbacks will block
         // indefinitely for us to finish.
+        #[cfg(feature = "verif")]
+        if params.take_global_guard {
+            crate::verif::sched::point_lock("access.read(session)", 1, false, &|| {
+                !self.access_lock.is_locked_exclusive()
+            });
+        }
         let access_guard = params
             .take_global_guard
             .then(|| RwLock::read_arc(&self.access_lock));
@@ -359,6 +369,10 @@ impl<T: HashAlgorithm> Nomt<T> {
             return Ok(());
         }
 
+        #[cfg(feature = "verif")]
+        crate::verif::sched::point_lock("access.write(rollback)", 1, true, &|| {
+            !self.access_lock.is_locked()
+        });
         let _write_guard = self.access_lock.write();
 
         let Some(rollback) = self.store.rollback() else {
@@ -679,6 +693,12 @@ impl FinishedSession {
     /// The changeset may be invalidated if another competing session, overlay, or rollback was
     /// committed.
     pub fn commit<T: HashAlgorithm>(self, nomt: &Nomt<T>) -> Result<(), anyhow::Error> {
+        #[cfg(feature = "verif")]
+        if self.take_global_guard {
+            crate::verif::sched::point_lock("access.write(commit)", 1, true, &|| {
+                !nomt.access_lock.is_locked()
+            });
+        }
         let _write_guard = self.take_global_guard.then(|| nomt.access_lock.write());
 
         if nomt.store.is_poisoned() {
@@ -728,6 +748,8 @@ impl FinishedSession {
         mut self,
         nomt: &Nomt<T>,
     ) -> Result<Option<Self>, anyhow::Error> {
+        #[cfg(feature = "verif")]
+        crate::verif::sched::point("access.try_write(commit)", &|| true);
         let write_guard = self
             .take_global_guard
             .then(|| nomt.access_lock.try_write())
@@ -821,6 +843,10 @@ impl Overlay {
             .collect();
         let rollback_delta = self.rollback_delta().map(|delta| delta.clone());
 
+        #[cfg(feature = "verif")]
+        crate::verif::sched::point_lock("access.write(overlay)", 1, true, &|| {
+            !nomt.access_lock.is_locked()
+        });
         let _write_guard = nomt.access_lock.write();
 
         if nomt.store.is_poisoned() {
@@ -883,6 +909,8 @@ impl Overlay {
             .collect();
         let rollback_delta = self.rollback_delta().map(|delta| delta.clone());
 
+        #[cfg(feature = "verif")]
+        crate::verif::sched::point("access.try_write(overlay)", &|| true);
         let write_guard = nomt.access_lock.try_write();
         if write_guard.is_none() {
             return Ok(Some(self));
